@@ -17,7 +17,19 @@ def _polytope():
     return PolytopeCheck()
 
 
+def _pipeline():
+    from .pipeline import PipelineCheck
+    return PipelineCheck()
+
+
+def _persistence():
+    from .pipeline import PersistenceCheck
+    return PersistenceCheck()
+
+
 _FACTORIES = {
+    "C14": _pipeline,
+    "C20": _persistence,
     "C08": _session,
     "C13": _merger,
     "C18": _polytope,
